@@ -78,7 +78,8 @@ SxFramed(b) == Len(b) >= 4 /\ b[1] = 240 /\ b[Len(b)] = 247 /\ \A i \in 2..(Len(
 
 (* ---------------------------------------------------------------- abstract state *)
 Mch0 == [vol |-> 100, expr |-> 127, patch |-> 0, msb |-> 0, xgp |-> FALSE, an |-> -1, av |-> 0]
-New(rate) == [alive |-> TRUE, rate |-> rate, craw |-> 2, chips |-> 2, emu |-> 0, banks |-> {}, full |-> {},
+New(rate) == [alive |-> TRUE, rate |-> rate, craw |-> 2, chips |-> 2, cgood |-> 2, emu |-> 0, banks |-> {}, full |-> {},
+              tempo |-> "norm", loop |-> FALSE,
               vset |-> 0, logv |-> 0, scale |-> 0, master |-> 127, mode |-> "XG", arp |-> 0, alloc |-> -1,
               mch |-> [c \in 0..15 |-> Mch0], song |-> "none", fuel |-> 0]
 Dead == [New(44100) EXCEPT !.alive = FALSE]
@@ -155,7 +156,7 @@ Hazards(S, ev) ==
     \o (IF chanBad THEN << >>
         ELSE CASE ev.e = "rt_noteOn" /\ ev.v > 0 ->
                     Hz(~DrumPath(S, c) /\ S.mch[c].patch >= 128 /\ S.banks # {},
-                       "overflow", "realTime_NoteOn patch=" \o ToString(S.mch[c].patch), 0 \in S.banks)
+                       "overflow", "realTime_NoteOn patch=" \o ToString(S.mch[c].patch), 0 \in S.banks /\ S.mch[c].patch > 128)   \* &ins[128] is one past the end: not instrumented
                     \o Hz(VolBad(S, c, ClampVel(ev.v), S.master) /\ S.chips >= 1 /\ S.banks # {}, "overflow", VolLabel(S, c),
                           SureSnd(S, c) /\ VolBadSure(S, c, ClampVel(ev.v), S.master))
                [] ev.e = "rt_controllerChange" /\ ev.n \in {7, 11, 74, 121} ->
@@ -174,11 +175,20 @@ CoreK == [i \in 0..8 |-> IF i \in {1, 8} THEN 10 ELSE 1]           \* microsecon
 RateF(rate) == IF rate < 20000 THEN 6 ELSE 1                        \* resampling from the native 53 kHz
 IsRender(ev) == ev.e \in {"play", "playFormat", "generate", "generateFormat"}
 RecreatesChips(ev) == ev.e \in {"setNumChips", "setChipType", "switchEmulator", "setRunAtPcmRate", "reset", "openBankData", "openBankFile", "openData", "openFile"}
+\* chips that may be running: the applied count, or the last accepted one (a repaired setNumChips does not store rejected counts)
+ChipsUp(S) == Clamp(Max(S.chips, S.cgood), 0, 101)
+\* the sequencer's tick handler runs at most 10000 rows per call (anti-freeze counter): measured 2.2 s under ASan
+RowsBurst == 2500000
+FastTick(S, ev) == S.song # "none" /\ (S.tempo = "fast" \/ (ev.e = "tickEvents" /\ ev.s \in {"huge", "inf"}))
+SeqCost(S, ev) ==
+  IF ev.e = "tickEvents" /\ FastTick(S, ev) THEN RowsBurst
+  ELSE IF ev.e \in {"play", "playFormat"} /\ FastTick(S, ev) THEN ((Max(ev.n, 0) \div 1024) + 1) * RowsBurst
+  ELSE 0
 Cost(S, ev) ==
   IF NullDev(S, ev) THEN 0
-  ELSE IF IsRender(ev) THEN (Max(ev.n, 0) \div 2) * Clamp(S.chips, 0, 101) * CoreK[IF S.emu \in 0..8 THEN S.emu ELSE 0] * RateF(S.rate)
-  ELSE IF RecreatesChips(ev) THEN 2000 * Clamp(IF ev.e = "setNumChips" /\ ChipsValid(ev.n) THEN ev.n ELSE Max(S.chips, IF S.craw \in 0..101 THEN S.craw ELSE 0), 1, 101)
-  ELSE 0
+  ELSE IF IsRender(ev) THEN (Max(ev.n, 0) \div 2) * ChipsUp(S) * CoreK[IF S.emu \in 0..8 THEN S.emu ELSE 0] * RateF(S.rate) + SeqCost(S, ev)
+  ELSE IF RecreatesChips(ev) THEN 2000 * Clamp(IF ev.e = "setNumChips" /\ ChipsValid(ev.n) THEN ev.n ELSE Max(ChipsUp(S), IF S.craw \in 0..101 THEN S.craw ELSE 0), 1, 101)
+  ELSE SeqCost(S, ev)
 Tmo(S, ev) == 2 + Cost(S, ev) \div 100000                           \* seconds of CPU time the call may take
 \* the VGM dumper is not an audio emulator (it writes a file): no rendering while it is selected
 Enabled(S, ev, cap) == (S.fuel + Cost(S, ev) <= cap) /\ ~(IsRender(ev) /\ S.alive /\ S.emu = VGM)
@@ -302,7 +312,7 @@ Step(S, ev) ==
   ELSE IF IsRt(ev) THEN StepRt(S, ev)
   ELSE CASE ev.e = "close" -> Dead
     [] ev.e = "setNumChips" ->
-         IF ChipsValid(ev.n) THEN PartialReset([S EXCEPT !.craw = ev.n, !.chips = ev.n])
+         IF ChipsValid(ev.n) THEN PartialReset([S EXCEPT !.craw = ev.n, !.chips = ev.n, !.cgood = ev.n])
          ELSE IF Repaired THEN S ELSE [S EXCEPT !.craw = ev.n]                      \* stored before validating
     [] ev.e = "setChipType" -> ApplySetup(S)
     [] ev.e = "switchEmulator" -> IF (IF Has(ev, "r") THEN ev.r = 0 ELSE EmuAvailable(ev.v)) THEN PartialReset([S EXCEPT !.emu = ev.v]) ELSE S
@@ -311,6 +321,9 @@ Step(S, ev) ==
     [] ev.e = "setVolumeRangeModel" -> [S EXCEPT !.vset = ev.v, !.scale = IF ev.v = 0 THEN 0 ELSE ScaleOf(ev.v, @)]
     [] ev.e = "setChannelAllocMode" -> [S EXCEPT !.alloc = IF ev.v < -1 \/ ev.v >= 3 THEN -1 ELSE ev.v]
     [] ev.e = "setAutoArpeggio" -> [S EXCEPT !.arp = IF ev.v # 0 THEN 1 ELSE 0]
+    [] ev.e = "setLoopEnabled" -> [S EXCEPT !.loop = ev.v # 0]
+    [] ev.e = "setTempo" -> IF ev.t \in {"huge", "inf"} THEN [S EXCEPT !.tempo = "fast"]
+                            ELSE IF ev.t \in {"neg1", "zero", "ninf"} THEN S ELSE [S EXCEPT !.tempo = "norm"]       \* tempo <= 0 is ignored
     [] ev.e \in {"openBankData", "openBankFile"} ->
          IF R(ev) = 0 /\ Assets[ev.a].t = "bank"
          THEN ApplySetup([S EXCEPT !.banks = Assets[ev.a].keys, !.full = Assets[ev.a].full, !.vset = 0]) ELSE S
